@@ -122,21 +122,73 @@ def outfile_rule(repo, res, rule="OUTFILE"):
     # ... and what is written does not depend on what was there: main.rs never inspects an existing file (metadata, existence, length,
     # content) -- the only file it reads is the usage file, inside the opener that returns a boxed `dyn Read`
     INSPECT = {"metadata", "symlink_metadata", "exists", "try_exists", "is_file", "is_dir", "read_dir", "read_link", "canonicalize", "len", "modified"}
-    probes = []
-    for fn in repo.fns_in("main"):
-        ret_ = "".join((fn.node.get("ret") or "").split())
-        is_reader = "dynRead" in ret_ or ("String" in ret_ and any(m["k"] == "MethodCall" and m["method"] in ("read_to_string", "read_to_end") for m in A.walk(fn.body)))
+    READS = {"read", "read_to_string", "open"}
+    WRITES = {"create", "create_new", "write"}
+    main_fns = repo.fns_in("main")
+
+    def roots(fn, e, depth=0):
+        """where a path expression comes from: the names of the fields it is read from (`args.<field>`), following parameters to
+        the arguments at every call of the function inside main.rs; '?' when it cannot be followed"""
+        envs = A.collect_envs(fn)
+        out = set()
+
+        def leaves(t):
+            if isinstance(t, tuple):
+                if t and t[0] == "field":
+                    out.add("." + str(t[2]))
+                    return
+                if t and t[0] == "param":
+                    idx = t[1]
+                    if depth >= 3:
+                        out.add("?")
+                        return
+                    hit = False
+                    for g in main_fns:
+                        for c in A.walk(g.body):
+                            if c["k"] == "Call" and c["func"]["k"] == "Path" and c["func"]["path"].split("::")[-1] == fn.name and idx < len(c["args"]):
+                                hit = True
+                                out.update(roots(g, c["args"][idx], depth + 1))
+                    if not hit:
+                        out.add("?")
+                    return
+                if t and t[0] == "lit":
+                    out.add("lit:" + str(t[1]))
+                    return
+                for x in t[1:]:
+                    leaves(x)
+        try:
+            leaves(A.resolve(e, envs.get(id(e)) or A.Env(), 0))
+        except Exception:
+            out.add("?")
+        return out or {"?"}
+
+    read_sites, write_roots, probes = [], set(), []
+    for fn in main_fns:
         for c in A.walk(fn.body):
             name = None
             if c["k"] == "Call" and c["func"]["k"] == "Path":
                 segs = c["func"]["path"].split("::")
-                if len(segs) >= 2 and segs[-2] in ("fs", "File", "Path", "OpenOptions") and (segs[-1] in INSPECT or segs[-1] in ("read", "read_to_string", "open")):
-                    name = "::".join(segs[-2:])
+                if len(segs) >= 2 and segs[-2] in ("fs", "File", "Path", "OpenOptions"):
+                    if segs[-1] in INSPECT:
+                        name = "::".join(segs[-2:])
+                    elif segs[-1] in READS and c["args"]:
+                        read_sites.append((fn, c, "::".join(segs[-2:])))
+                    elif segs[-1] in WRITES and c["args"]:
+                        write_roots |= roots(fn, c["args"][0])
             elif c["k"] == "MethodCall" and c["method"] in ("metadata", "symlink_metadata", "exists", "try_exists", "is_file"):
                 name = "." + c["method"]
-            if name and not (is_reader and name in ("File::open",)):
+            elif c["k"] == "MethodCall" and c["method"] == "open" and len(c["args"]) == 1:
+                write_roots |= roots(fn, c["args"][0])   # OpenOptions chain
+            if name:
                 probes.append(f"{fn.qname}:{name}@{c['l']}")
-    res.check(not probes, rule, f"{rule}:main:no-inspection-of-existing-files", "main.rs opens its destinations for writing and reads only the usage file: nothing written depends on a file's previous state" if not probes else f"an existing file's state is inspected: {probes[:4]} -- the bytes left at the destination then depend on what was there before", "src/main.rs")
+    # a file opened for READING is the input only if its path can be followed to a source no written destination comes from
+    seen_reads = []
+    for fn, c, name in read_sites:
+        rr = roots(fn, c["args"][0])
+        seen_reads.append(f"{name} <- {sorted(rr)}")
+        if "?" in rr or "?" in write_roots or (rr & write_roots):
+            probes.append(f"{fn.qname}:{name}@{c['l']} (path from {sorted(rr)}; destinations from {sorted(write_roots)})")
+    res.check(not probes, rule, f"{rule}:main:no-inspection-of-existing-files", "main.rs opens its destinations for writing and reads only files whose path comes from elsewhere than any destination's: nothing written depends on a destination's previous state" + f" (reads: {seen_reads}; destinations <- {sorted(write_roots)})" if not probes else f"an existing file's state is inspected: {probes[:4]} -- the bytes left at the destination then depend on what was there before", "src/main.rs")
 
 
 def run(repo, res, tier):
